@@ -71,6 +71,52 @@ pub fn helper_main(args: &[String]) {
                 work();
             }
         }
+        Some("vanishdump") => {
+            // helper vanishdump <bits>: this (sacrificial) process dumps a child of its own that is a zombie
+            // when the request starts and is reaped - vanishes from /proc - while the request is waiting
+            // for it to stop.  bit 0: reap after 30 ms instead of 150 ms; bit 1: stop timeout 2 s instead
+            // of 400 ms; bit 2: size limit
+            unsafe {
+                libc::prctl(libc::PR_SET_PDEATHSIG, libc::SIGKILL);
+            }
+            let bits: u32 = args.get(1).and_then(|s| s.parse().ok()).unwrap_or(0);
+            let mut child = std::process::Command::new("/bin/true").spawn().expect("spawn");
+            let pid = child.id() as i32;
+            // wait until it is a zombie
+            for _ in 0..2000 {
+                let st = std::fs::read_to_string(format!("/proc/{pid}/stat")).unwrap_or_default();
+                if st.rsplit(')').next().map(|r| r.trim_start().starts_with('Z')).unwrap_or(false) {
+                    break;
+                }
+                std::thread::sleep(std::time::Duration::from_millis(1));
+            }
+            let done = std::sync::Arc::new(std::sync::atomic::AtomicU8::new(0));
+            let d2 = done.clone();
+            std::thread::spawn(move || {
+                let mut w = minidump_writer::minidump_writer::MinidumpWriter::new(pid, pid);
+                w.stop_timeout(std::time::Duration::from_millis(if bits & 2 != 0 { 2000 } else { 400 }));
+                if bits & 4 != 0 {
+                    w.set_minidump_size_limit(1);
+                }
+                let mut out = std::io::Cursor::new(Vec::new());
+                let r = std::panic::catch_unwind(std::panic::AssertUnwindSafe(|| w.dump(&mut out)));
+                d2.store(match r { Ok(Ok(_)) => 1, Ok(Err(_)) => 2, Err(_) => 3 }, std::sync::atomic::Ordering::SeqCst);
+            });
+            std::thread::sleep(std::time::Duration::from_millis(if bits & 1 != 0 { 30 } else { 150 }));
+            let _ = child.wait();
+            let t0 = std::time::Instant::now();
+            while done.load(std::sync::atomic::Ordering::SeqCst) == 0 && t0.elapsed().as_secs() < 8 {
+                std::thread::sleep(std::time::Duration::from_millis(5));
+            }
+            match done.load(std::sync::atomic::Ordering::SeqCst) {
+                0 => println!("vanish: stuck"),
+                1 => println!("vanish: returned ok"),
+                2 => println!("vanish: returned err"),
+                _ => println!("vanish: panic"),
+            }
+            // do not wait for a stuck thread
+            unsafe { libc::_exit(0) };
+        }
         Some("fuzz-seeds") => {
             // helper fuzz-seeds <target> <dir>: deterministic seed corpus from the proptest generators
             use proptest::strategy::{Strategy, ValueTree};
